@@ -421,6 +421,41 @@ def _cookie_flood(n_i, c2_i, path_i):
     return len(client.sent) == 3
 
 
+class _RefusingWriterSession(_PathWriterSession):
+    def process_response(self, response):
+        raise ProtocolError('Server not able to continue file download: x.')
+
+
+class _RefusingWriter:
+    def session(self):
+        return _RefusingWriterSession()
+
+
+def _writer_refuses(ftp, lt):
+    """The file writer turns the response down with a per-URL error (what --continue does when the server cannot resume): the
+    processor must come back normally - the response has no body object yet at that moment."""
+    from wpull.pipeline.item import LinkType
+    from wpull.protocol.ftp.ls.listing import FileEntry
+    with nosym():
+        if ftp:
+            client = stubs.StubFTPClient(files=[FileEntry('file', 'file')])
+            env = stubs.build_ftp(client, filters=[F.SchemeFilter()])
+            url = 'ftp://example.com/dir/file'
+        else:
+            client = stubs.StubHTTPClient(script=[(200, None)])
+            env = stubs.build_web(client, filters=[F.SchemeFilter()])
+            url = 'http://a.example/big.iso'
+        env.factory['FileWriter'] = _RefusingWriter()
+        env.table.add(url)
+        rec = env.table.check_out(Status.todo)
+        if ftp:
+            rec.link_type = [LinkType.file, LinkType.directory][lt]
+        item = ItemSession(env.app, rec)
+    run(env.proc.process(item))
+    hit('processed')
+    return item.is_processed and env.table.rows[url].status in (Status.error, Status.skipped, Status.done)
+
+
 def _file_continue(status_i, ftp, restart_ok):
     """--continue: a partial local file exists, the request asks for the rest; the server answers with something else than the
     requested remainder (200 instead of 206, 416 for a complete file, an error page; FTP: REST refused)."""
@@ -576,6 +611,11 @@ HARNESSES = [
       doc='13 robots.txt / sitemap bodies (gzip magic followed by junk, truncated or corrupted gzip, trailing garbage, NULs, broken '
           'Sitemap: lines) through SitemapScraper.scrape with a stub XML back end: the gzip sniffing and robots.txt paths return links '
           'or give up quietly, nothing is raised'),
+    H('writer_refuses', '_writer_refuses', 'ftp: bool, lt: int', pre=['0 <= lt <= 1'], timeout={'quick': 120, 'thorough': 300},
+      samples=[(False, 0), (True, 0)], need=['processed'],
+      funcs=['wpull/processor/web.py:WebProcessorSession._fetch_one', 'wpull/processor/ftp.py:FTPProcessorSession._fetch'],
+      doc='the file writer refuses the response with a protocol error before a body object exists (--continue against a server that '
+          'cannot resume): the HTTP and FTP processors return normally with the URL marked failed'),
     H('file_continue', '_file_continue', 'status_i: int, ftp: bool, restart_ok: bool', pre=['0 <= status_i <= 6'],
       timeout={'quick': 120, 'thorough': 300}, samples=[(0, False, True), (1, False, True), (0, True, False)], need=['refused', 'continued'],
       funcs=['wpull/writer.py:BaseFileWriterSession.process_response', 'wpull/writer.py:BaseFileWriterSession._process_file_continue_response'],
